@@ -1,12 +1,15 @@
 #!/usr/bin/env python3
 """collect verified seeded changes from /tmp/mut/<prop>/out/m* into /verif/seeded/<PROP>-m<k>/ with the evaluation results"""
-import glob, json, os, shutil
+import glob, json, os, shutil, sys
+ROUND = sys.argv[1] if len(sys.argv) > 1 else "1"   # "1": /tmp/mut, ids <PROP>-m<k>; "2": /tmp/mut2, ids <PROP>-r2m<k>
+SRC = "/tmp/mut" if ROUND == "1" else f"/tmp/mut{ROUND}"
+PREFIX = "" if ROUND == "1" else f"r{ROUND}"
 res = {}
-for f in ("/tmp/mut/results.json", "/tmp/mut/results2.json", "/tmp/mut/results3.json"):
+for f in sorted(glob.glob(os.path.join(SRC, "results*.json"))):
     if os.path.exists(f):
         for k, v in json.load(open(f)).items():
             res.setdefault(k, {}).update({kk: vv for kk, vv in v.items() if vv is not None})
-for d in sorted(glob.glob("/tmp/mut/c*/out/m*")):
+for d in sorted(glob.glob(os.path.join(SRC, "c*/out/m*"))):
     if not os.path.exists(os.path.join(d, "patch.diff")):
         continue
     prop = os.path.basename(os.path.dirname(os.path.dirname(d))).upper()
@@ -18,7 +21,7 @@ for d in sorted(glob.glob("/tmp/mut/c*/out/m*")):
     if r.get("baseline_broken"):
         print("skip (breaks baseline tests):", key, r["baseline_broken"])
         continue
-    out = os.path.join("/verif/seeded", f"{prop}-{os.path.basename(d)}")
+    out = os.path.join("/verif/seeded", f"{prop}-{PREFIX}{os.path.basename(d)}")
     os.makedirs(out, exist_ok=True)
     shutil.copy(os.path.join(d, "patch.diff"), out)
     shutil.copy(os.path.join(d, "demo.py"), out)
